@@ -119,6 +119,8 @@ class Builder(object):
         op = self.emit(op="plin", out=x, terms=[[h, float(w)] for h, w in terms])
         if self.rng.random() < 0.12:
             op["acc"] = True      # written as `acc = null_point; acc += ...`
+        elif len(op["terms"]) > 1 and op["terms"][0][1] == 1.0 and self.rng.random() < 0.15:
+            op["acc_from_first"] = True      # written as `y = x; y += ...` (x stays in use under its own name)
         elif self.rng.random() < 0.2:
             op["style"] = self._styles(op["terms"])
         self.points.append(x)
@@ -164,6 +166,8 @@ class Builder(object):
             op["const"] = float(const)
         if terms and self.rng.random() < 0.12:
             op["acc"] = True      # written as `acc = null_expression; acc += ...`
+        elif len(terms) > 1 and float(terms[0][1]) == 1.0 and self.rng.random() < 0.15:
+            op["acc_from_first"] = True      # written as `phi = d0; phi += ...`
         elif terms and self.rng.random() < 0.2:
             op["style"] = self._styles(op["terms"])
             if const is not None:
@@ -455,6 +459,24 @@ def t_operator(b, n, rng):
     b.info.update(template="operator", cls=cls, f=A, x0=x0, xn=x, main_f=A)
 
 
+def t_user_class(b, n, rng):
+    """Resolvent iteration on an operator class written by the user with the documented table builders."""
+    mu = r2(0.1 + 0.5 * rng.random())
+    b.pep()
+    A = b.func("UserQuasiStronglyMonotoneOperator", mu=mu)
+    xs, gs, fs = b.stationary(A)
+    if rng.random() < 0.3:
+        b.stationary(A)          # a second zero of the operator (it then coincides with the first)
+    x0 = b.point()
+    x = x0
+    gamma = r2(0.5 + rng.random())
+    for k in range(max(n, 1)):
+        x = b.step("proximal_step", 3, x0="@" + x, f="@" + A, gamma=gamma)[0]
+    b.bound(b.dist2(x0, xs), 1.0, how="initial")
+    b.metric(b.dist2(x, xs))
+    b.info.update(template="user_class", cls="UserQuasiStronglyMonotoneOperator", f=A, x0=x0, xn=x, main_f=A, xs=xs)
+
+
 def t_halpern(b, n, rng):
     b.pep()
     T = b.func("NonexpansiveOperator")
@@ -680,6 +702,19 @@ def t_linear(b, n, rng):
         b.bound(b.sq(u), 1.0)
     # (otherwise the operator is only applied forward: its adjoint has no sample)
     b.bound(b.sq(x0), 1.0, how="initial")
+    if cls == "LinearOperator" and rng.random() < 0.35:
+        # things declared on the adjoint itself (it is a function of its own): a constraint, an LMI, a step
+        AT = A + "T"
+        what = rng.choice(["cons", "lmi", "step"])
+        if what == "cons":
+            b.bound(b.sq(x0), 2.2e3, target=AT)
+        elif what == "lmi":
+            s_ = b.newexpr()
+            b.psd([[b.sq(x0), s_], [s_, 1.0]], target=AT)
+        else:
+            u2 = b.point()
+            b.bound(b.sq(u2), 1.0)
+            b.step("inexact_gradient_step", 3, x0="@" + u2, f="@" + AT, gamma=0.1, epsilon=0.1, notion="absolute")
     if cls == "SkewSymmetricLinearOperator" and rng.random() < 0.5:
         b.metric(b.inner(x0, ys[0]))     # <x, Ax>: zero for every skew-symmetric operator
     elif cls == "LinearOperator" and len(ys) >= 2 and rng.random() < 0.5:
@@ -778,12 +813,12 @@ TEMPLATES = {
     "operator": t_operator, "halpern": t_halpern, "fw": t_fw, "linesearch": t_linesearch,
     "inexact_gd": t_inexact_gd, "inexact_prox": t_inexact_prox, "eps_subgradient": t_eps_subgradient,
     "bregman": t_bregman, "bregman_prox": t_bregman_prox, "bcd": t_bcd, "linear": t_linear,
-    "agm": t_agm, "drs": t_drs, "tos": t_tos,
+    "agm": t_agm, "drs": t_drs, "tos": t_tos, "user_class": t_user_class,
 }
 
 DEFAULT_WEIGHTS = {"gd": 4, "gd_qg": 2, "subgradient": 1, "ppa": 2, "pgd": 3, "operator": 3, "halpern": 1, "fw": 1,
                    "linesearch": 1, "inexact_gd": 1, "inexact_prox": 1, "eps_subgradient": 1, "bregman": 1,
-                   "bregman_prox": 1, "bcd": 2, "linear": 2, "agm": 1, "drs": 1, "tos": 1}
+                   "bregman_prox": 1, "bcd": 2, "linear": 2, "agm": 1, "drs": 1, "tos": 1, "user_class": 1}
 
 
 # --------------------------------------------------------------------------------------------------
@@ -968,6 +1003,35 @@ def decorate(b, rng, kinds):
             # the user generates the class constraints by hand before solving (once or twice)
             for _ in range(rng.choice([1, 1, 2])):
                 b.emit(op="setcc", f=info["main_f"])
+        elif kind == "two_func_lmis" and info.get("metrics") and len(b.funcs) >= 1:
+            # LMIs attached to two different functions (Function.add_psd_matrix), each with a constant entry
+            owners = list(b.funcs[:2])
+            if len(owners) < 2:
+                owners.append(b.func("ConvexFunction"))      # a second function that only carries its LMI
+                b.funcs.pop()
+            for k_, f_ in enumerate(owners):
+                s_ = b.newexpr()
+                m_ = info["metrics"][0] if k_ == 0 else b.elin([(info["metrics"][0], 1.0)], const=1.0)
+                b.psd([[m_, s_], [s_, 1.0]], target=f_)
+        elif kind == "running_sum" and pts and info.get("metrics"):
+            # potentials written as running sums that start from an existing derived object:
+            # `phi = d0; phi += c * gap` and `y = x1; y += c * g` (d0 and x1 stay in use under their own names)
+            d0 = b.sq(rng.choice(pts))
+            phi = b.elin([(d0, 1.0), (info["metrics"][0], r2(0.5 + rng.random()))])
+            b.ops[-1].pop("acc", None)
+            b.ops[-1].pop("style", None)
+            b.ops[-1]["acc_from_first"] = True
+            b.bound(phi, 7.5e3)
+            b.bound(d0, 7.6e3)
+            derived = [o["out"] for o in b.ops if o["op"] == "plin" and len(o["terms"]) >= 2]
+            if derived and len(pts) >= 2:
+                x1 = rng.choice(derived)
+                y = b.plin([(x1, 1.0), (rng.choice(pts), r2(rng.uniform(-1, 1)))])
+                b.ops[-1].pop("acc", None)
+                b.ops[-1].pop("style", None)
+                b.ops[-1]["acc_from_first"] = True
+                b.points.pop()
+                b.bound(b.sq(y), 7.7e3)
         elif kind == "orphan_psd" and info.get("metrics"):
             # a PSDMatrix object that is created but never added to the model
             b.psd([[info["metrics"][0], 0.0], [0.0, 1.0]], target=None)
@@ -976,7 +1040,7 @@ def decorate(b, rng, kinds):
 
 DECORATIONS = ["extra_metric", "redundant_cons", "eq_cons", "func_cons", "lmi_sym", "lmi_asym", "lmi_func", "lmi3",
                "unused_query", "useless_partition", "orphan_psd", "part_cons", "zero_coef", "mirror", "leaf_metric",
-               "leaf_sides", "composite_items", "double_reg", "idle_operator", "lmi_affine", "tiny_scale", "raw_zero_lmi", "same_name_metrics", "manual_class_constraints"]
+               "leaf_sides", "composite_items", "double_reg", "idle_operator", "lmi_affine", "tiny_scale", "raw_zero_lmi", "same_name_metrics", "manual_class_constraints", "two_func_lmis", "running_sum"]
 
 
 def build_model(rng, prefix="", template=None, n=None, decorations=None, names=None, weights=None,
@@ -1008,6 +1072,13 @@ def build_model(rng, prefix="", template=None, n=None, decorations=None, names=N
                                                (scope == "point" and op["op"] in ("gradient", "stationary"))):
                 op["name"] = same.get(op["op"], "obj")
         b.info["dup_names"] = scope
+    if b.names and rng.random() < 0.2:
+        # LaTeX-style and other unusual but legal names
+        odd = ["f_{1}", "h_{0}", "x_{k+1}", "{}", "100%", "%s", "a b", "x'", "{0}{1}"]
+        for op in b.ops:
+            if op.get("name") is not None and op["op"] in ("func", "point", "gradient", "stationary") and rng.random() < 0.6:
+                op["name"] = rng.choice(odd) + ("" if rng.random() < 0.5 else str(rng.randrange(9)))
+        b.info["odd_names"] = True
     # alternative routes of the public API to the same declarations
     for op in b.ops:
         if op["op"] in ("point", "func", "gradient") and op.get("name") is not None and rng.random() < 0.3:
